@@ -77,8 +77,9 @@ func pipeCase(spec pipeSpec) corr.Case {
 			steps = append(steps, fmt.Sprintf("UNext %d %d", t, id))
 		case r < 50:
 			id := ids[rng.Intn(len(ids))]
+			region := uint64(rng.Intn(3))
 			tok := uint64(len(toks) + 1)
-			ok, dup := vp.Register(id, tok)
+			ok, dup := vp.Register(region, id, tok)
 			obs := "RegNil"
 			if ok {
 				obs = "RegOk"
@@ -88,11 +89,12 @@ func pipeCase(spec pipeSpec) corr.Case {
 				obs = "RegDup"
 				collide = true
 			}
-			steps = append(steps, fmt.Sprintf("UReg %d %d %s", id, tok, obs))
+			steps = append(steps, fmt.Sprintf("UReg %d %d %d %s", region, id, tok, obs))
 		case r < 58:
 			id := ids[rng.Intn(len(ids))]
-			vp.Remove(id)
-			steps = append(steps, fmt.Sprintf("URem %d", id))
+			region := uint64(rng.Intn(3))
+			vp.Remove(region, id)
+			steps = append(steps, fmt.Sprintf("URem %d %d", region, id))
 		default:
 			n := rng.Intn(4)
 			var es []myraft.Entry
@@ -110,10 +112,11 @@ func pipeCase(spec pipeSpec) corr.Case {
 						c.Kind = "fail"
 					}
 					id := ids[rng.Intn(len(ids))]
-					req := buildReq(c, regionID)
+					region := uint64(rng.Intn(3))
+					req := buildReq(c, region)
 					req.Header.RequestId = id
 					e.Data, _ = command.Encode(req)
-					ces = append(ces, fmt.Sprintf("En %d %d %d %s", idx, term, id, c.coq()))
+					ces = append(ces, fmt.Sprintf("En %d %d %d %d %s", idx, term, region, id, c.coq()))
 				case k < 78:
 					ces = append(ces, fmt.Sprintf("Ex %d %d ENormal PEmpty", idx, term))
 				case k < 84:
@@ -202,6 +205,9 @@ func clusterCase(c *corr.Ctx, spec runSpec, n int) (corr.Case, map[string]int, e
 			}
 		}
 	}
+	if spec.Regions > 1 || spec.Profile == "tworegions" {
+		stats["runs_two_regions"]++
+	}
 	st := map[string]int{"ops_ok": okOps, "ops_notleader": notLeader, "reads_served": reads, "applies": applies, "runs": 1}
 	if len(leaders) > 1 {
 		st["runs_with_leader_change"] = 1
@@ -224,7 +230,7 @@ func runCluster(c *corr.Ctx) error {
 	c.Meta("run_module", "RunCluster")
 	c.Meta("exhaustive", false)
 	c.Meta("rule", "CPipe: random op sequences (nextProposalID with boundary terms, registerProposal incl. id 0 and duplicates, removeProposal, applyEntries over command / empty / undecodable / legacy / admin / conf-change entries and failing commands) on a bare commandPipeline; non-trivial = some waiter completed and ids were reused or several waiters existed. "+
-		"CCluster: 3 real store.Store on an in-memory transport; PRNG-driven delivery (30% out of order, 6% duplicated, 8% dropped), ticks, campaigns, leader transfers, single-store partitions, up to 2 store restarts from the raft directory, up to 9 client calls (put / get through ProposeCommand, get through ReadCommand) aimed 80% at a store that claims leadership; the observed trace (apply observer, read observer, call/return) is replayed through the model and judged by the spec oracles; non-trivial = at least 2 successful calls and a leader change, a restart or a served read; distinct by Gallina term")
+		"CCluster: 3 real store.Store on an in-memory transport; PRNG-driven delivery (30% out of order, 6% duplicated, 8% dropped), ticks, campaigns, leader transfers, single-store partitions, up to 2 store restarts from the store directory (WAL-backed raft logs), one region or (every second run) two regions sharing each store's pipeline, with a scripted two-region run where both leaders hand out the same request id, up to 9 client calls (put / get through ProposeCommand, get through ReadCommand) aimed 80% at a store that claims leadership; the observed trace (apply observer, read observer, call/return) is replayed through the model and judged by the spec oracles; non-trivial = at least 2 successful calls and a leader change, a restart or a served read; distinct by Gallina term")
 
 	if c.Replay != "" {
 		cases, err := c.ReplayCases()
@@ -255,7 +261,7 @@ func runCluster(c *corr.Ctx) error {
 
 	if one := os.Getenv("VERIF_CLUSTER_ONE"); one != "" {
 		var sp runSpec
-		if _, err := fmt.Sscanf(one, "%d,%d,%s", &sp.Seed, &sp.Steps, &sp.Profile); err != nil {
+		if _, err := fmt.Sscanf(one, "%d,%d,%d,%s", &sp.Seed, &sp.Steps, &sp.Regions, &sp.Profile); err != nil {
 			return err
 		}
 		cs, _, err := clusterCase(c, sp, 0)
@@ -276,14 +282,15 @@ func runCluster(c *corr.Ctx) error {
 
 	// cluster runs, a few at a time
 	nc := c.Scale(110, 2500)
-	specs := make([]runSpec, 0, nc+2)
-	specs = append(specs, runSpec{Seed: 1, Profile: "f20"}, runSpec{Seed: 1, Profile: "newleader"})
+	specs := make([]runSpec, 0, nc+3)
+	specs = append(specs, runSpec{Seed: 1, Profile: "f20"}, runSpec{Seed: 1, Profile: "newleader"},
+		runSpec{Seed: 1, Profile: "tworegions"})
 	for i := 0; i < nc; i++ {
 		p := "mixed"
 		if c.Prop == "C23" || i%3 == 2 {
 			p = "reads"
 		}
-		specs = append(specs, runSpec{Seed: c.Rng.Int63(), Steps: 60 + c.Rng.Intn(140), Profile: p})
+		specs = append(specs, runSpec{Seed: c.Rng.Int63(), Steps: 60 + c.Rng.Intn(140), Profile: p, Regions: 1 + i%2})
 	}
 	type res struct {
 		cs  corr.Case
